@@ -22,6 +22,8 @@ import EPV.Lemmas.MapArrayLaws
 import EPV.Lemmas.MapArrayMergeRefine
 import EPV.Lemmas.MapArrayRefine
 import EPV.Lemmas.MapArrayObserve
+import EPV.Lemmas.MapArrayClosed
+import EPV.Lemmas.MapArrayHof
 namespace EPV.C15
 open EPV.MapArray
 
@@ -46,11 +48,11 @@ theorem code_key_relations_equiv :
   ⟨fun a => ⟨dictEq_refl a, scanEq_refl a⟩, fun a b => ⟨dictEq_symm a b, scanEq_symm a b⟩,
    fun _ _ _ => ⟨dictEq_trans, scanEq_trans⟩, fun _ _ => scanEq_of_dictEq⟩
 
-/-- PARTIAL (known findings F15d, F15f).  Full statement: *the code identifies two keys exactly
+/-- PARTIAL (known findings F15d, F15f, F15k).  Full statement: *the code identifies two keys exactly
 when `op:same-key` does* (`dictEq a b = sameKey a b ∧ scanEq a b = sameKey a b` for all keys).
 That is false on the current tree; it holds for every pair outside the decidable trigger
-predicate `keyClash`, and `keyClash a b` can only hold for a boolean against a number or for two
-dates (`clashShape`). -/
+predicate `keyClash`, and `keyClash a b` can only hold for a boolean against a number, for two
+dates or for two opaque values (`clashShape`). -/
 theorem key_identity_partial (a b : Key) (h : keyClash a b = false) :
     dictEq a b = Spec.sameKey a b ∧ scanEq a b = Spec.sameKey a b :=
   ⟨dictEq_eq_sameKey_of_not_clash h, scanEq_eq_sameKey_of_not_clash h⟩
@@ -74,22 +76,32 @@ theorem key_identity_fails_bool_int :
     Spec.construct [(.bool true, [1]), (.int 1, [2])] = (.ok [(.bool true, [1]), (.int 1, [2])] : Except Err (Entries (List Nat))) := by
   decide
 
-/-- F15f (kernel-checked witness): `xs:date('2000-01-01')` and `xs:date('2000-01-01Z')` are found
-equal by the `==` scan of map:contains (same-key says no: only one has a timezone), and
-`xs:date('2000-12-31-12:00')` / `xs:date('2001-01-01+12:00')` are the same instant with a timezone
-(same key, and `==` for the scans since C11's fix of `_compare`) but land in different dict slots,
-because `__hash__` still mixes in the lexical year: map:get / the constructor keep them apart. -/
+/-- F15f (kernel-checked witness): `xs:date('2000-01-01')` and `xs:date('2000-01-01Z')` are the
+same key for the code — for the dict (since date/time values hash by their instant) and for the
+`==` scans alike — but not for `op:same-key`, which requires both or neither to have a timezone;
+two dates *with* timezones denoting the same instant in different lexical years are the same key
+for code and spec. -/
 theorem key_identity_fails_dates :
+    dictEq (.date 2000 15778080 none) (.date 2000 15778080 (some 0)) = true ∧
     scanEq (.date 2000 15778080 none) (.date 2000 15778080 (some 0)) = true ∧
     Spec.sameKey (.date 2000 15778080 none) (.date 2000 15778080 (some 0)) = false ∧
-    dictEq (.date 2000 16304400 (some (-720))) (.date 2001 16304400 (some 720)) = false ∧
-    scanEq (.date 2000 16304400 (some (-720))) (.date 2001 16304400 (some 720)) = true ∧
-    Spec.sameKey (.date 2000 16304400 (some (-720))) (.date 2001 16304400 (some 720)) = true ∧
-    mapCtor [(.date 2000 16304400 (some (-720)), [1]), (.date 2001 16304400 (some 720), [2])]
-      = (.ok [(.date 2000 16304400 (some (-720)), [1]), (.date 2001 16304400 (some 720), [2])] :
+    mapCtor [(.date 2000 15778080 none, [1]), (.date 2000 15778080 (some 0), [2])]
+      = (.error .XQDY0137 : Except Err (Entries (List Nat))) ∧
+    Spec.construct [(.date 2000 15778080 none, [1]), (.date 2000 15778080 (some 0), [2])]
+      = (.ok [(.date 2000 15778080 none, [1]), (.date 2000 15778080 (some 0), [2])] :
           Except Err (Entries (List Nat))) ∧
-    Spec.construct [(.date 2000 16304400 (some (-720)), [1]), (.date 2001 16304400 (some 720), [2])]
-      = (.error .XQDY0137 : Except Err (Entries (List Nat))) := by
+    dictEq (.date 2000 16304400 (some (-720))) (.date 2001 16304400 (some 720)) = true ∧
+    Spec.sameKey (.date 2000 16304400 (some (-720))) (.date 2001 16304400 (some 720)) = true := by
+  decide
+
+/-- F15k (kernel-checked witness): an xs:hexBinary and an xs:base64Binary with the same octets
+are `==` for the scans (map:contains says yes) but are different keys for the dict and for
+`op:same-key`. -/
+theorem key_identity_fails_binaries :
+    scanEq (.opq 3 [0, 255]) (.opq 4 [0, 255]) = true ∧ dictEq (.opq 3 [0, 255]) (.opq 4 [0, 255]) = false ∧
+    Spec.sameKey (.opq 3 [0, 255]) (.opq 4 [0, 255]) = false ∧
+    mapContains ([(.opq 3 [0, 255], [1])] : Entries (List Nat)) (.opq 4 [0, 255]) = true ∧
+    Spec.contains ([(.opq 3 [0, 255], [1])] : Entries (List Nat)) (.opq 4 [0, 255]) = false := by
   decide
 
 /-! ## arrays: every function equals its list definition -/
@@ -127,6 +139,20 @@ theorem array_subarray_eq_list (ms : List α) (start : Int) (len : Option Int) :
 theorem array_head_tail_reverse_eq_list (ms : List α) :
     arrHead ms = Spec.ahead ms ∧ arrTail ms = Spec.atail ms ∧ arrReverse ms = Spec.areverse ms :=
   ⟨arrHead_eq ms, arrTail_eq ms, rfl⟩
+
+/-- array:filter (Python `filter(...)` with the boolean check) = `List.filter`; XPTY0004 as soon as
+the function returns a non-boolean for some member -/
+theorem array_filter_eq_list {α : Type} (p : α → Option Bool) (q : α → Bool) (l : List α) :
+    ((∀ x ∈ l, p x = some (q x)) → filterLoop p l = .ok (l.filter q)) ∧
+    ((∃ x ∈ l, p x = none) → filterLoop p l = .error .XPTY0004) :=
+  ⟨filterLoop_eq_filter p q l, filterLoop_error p l⟩
+
+/-- array:fold-left / array:fold-right / array:for-each-pair (the Python loops) are `List.foldl`,
+`List.foldr` and `List.zipWith`, for every function, every zero, all arrays; array:for-each is
+`List.map` by definition of the model (`evalOp`, case `aForEach`). -/
+theorem array_folds_eq_list {α β : Type} (f : β → α → β) (g : α → β → β) (h : α → α → β) (z : β) (l l' : List α) :
+    foldLLoop f z l = l.foldl f z ∧ foldRLoop g z l = l.foldr g z ∧ pairLoop h l l' = List.zipWith h l l' :=
+  ⟨foldLLoop_eq_foldl f z l, foldRLoop_eq_foldr g z l, pairLoop_eq_zipWith h l l'⟩
 
 /-- test on literals: the spec functions do what one expects -/
 example : Spec.aput [10, 20, 30] 2 99 = .ok [10, 99, 30] ∧ Spec.aput [10, 20, 30] 4 99 = .error .FOAY0001 ∧
@@ -278,12 +304,35 @@ theorem ops_persistent_observe (d : Dialect) (hd : d.alias = false) (st : St) (o
 /-- **Deep version**: what an observer sees of an old value — its complete unfolding through the
 store (`obsSeq`: every key, every entry, every member, to any depth) — is the same after the run,
 for every old value whose addresses lie in the old store, provided the old store is `Closed`
-(its objects mention only addresses inside it; decidable, and true of every store the machine
-builds from the empty one — that last fact is observed by the correspondence, not proved). -/
+(its objects mention only addresses inside it — true of every store the machine builds, see
+`run_preserves_closed` and `ops_persistent_deep_from_empty`). -/
 theorem ops_persistent_deep (d : Dialect) (hd : d.alias = false) (st : St) (hc : Closed st.store)
     (ops : List Op) (fuel : Nat) (v : Seq) (hv : ∀ r ∈ seqRefs v, r < st.store.length) :
     obsSeq (run d st ops).store fuel v = obsSeq st.store fuel v :=
   (obs_stable (run_prefix d hd st ops).1 hc fuel).2 v hv
+
+/-- **run_preserves_closed.**  Every operation of the machine — with the Python transcriptions or
+with the F&O definitions — keeps the state closed: objects and variables mention only addresses
+that exist. -/
+theorem run_preserves_closed (alias : Bool) (halias : alias = false) (st : St) (h : StOK st) (ops : List Op) :
+    StOK (run (pyDialect alias) st ops) ∧ StOK (run Spec.specDialect st ops) :=
+  ⟨run_StOK (Pres_py alias) (by simp [pyDialect, halias]) h ops, run_StOK Pres_spec rfl h ops⟩
+
+/-- **Deep immutability without hypotheses.**  Start from the empty state, run any operations
+`ops₁`, look at any variable `$i` bound so far, then run any further operations `ops₂`: the
+complete unfolding of `$i` through the store (every key, entry and member, to any depth) is what
+it was. -/
+theorem ops_persistent_deep_from_empty (ops₁ ops₂ : List Op) (fuel i : Nat) (v : Seq)
+    (hv : (run (pyDialect false) ⟨[], []⟩ ops₁).env[i]? = some v) :
+    obsSeq (run (pyDialect false) ⟨[], []⟩ (ops₁ ++ ops₂)).store fuel v =
+      obsSeq (run (pyDialect false) ⟨[], []⟩ ops₁).store fuel v := by
+  have hst := run_StOK (Pres_py false) rfl StOK_empty ops₁
+  have hrun : run (pyDialect false) ⟨[], []⟩ (ops₁ ++ ops₂) =
+      run (pyDialect false) (run (pyDialect false) ⟨[], []⟩ ops₁) ops₂ := by
+    simp [run, List.foldl_append]
+  rw [hrun]
+  exact ops_persistent_deep _ rfl _ (Closed_of_StoreOK hst.1) ops₂ fuel v
+    (seqRefs_of_SeqOK (hst.2 v (List.mem_of_getElem? hv)))
 
 /-- `Closed` holds on a non-trivial store (an array nested in an array) -/
 example : Closed [Obj.arr [[.atom (.int 1)]], Obj.arr [[.ref 0], [.atom (.int 2)]]] := by
@@ -317,18 +366,20 @@ interpreter built from the Python transcriptions and the one built from the F&O 
 the same state* (same store, same values, same errors).  Proved for every sequence, from every
 state whose map objects are well-formed with keys in `K`, under the decidable hypotheses
 `noClash K` (no boolean-against-number pair, no clashing date pair among the keys in play) and
-"no `?` lookup with a boolean key" — the trigger predicates of F15d / F15f.  Witnesses that the
+"no `?` lookup with a boolean key" — the trigger predicates of F15d / F15f / F15k; `deep-equal`
+steps are excluded (their atomic comparison has its own theorems below).  Witnesses that the
 full statement is false: `key_identity_fails_bool_int`, `key_identity_fails_dates`,
 `lookup_bool_index_differs`. -/
 theorem run_refines_spec_partial (K : List Key) (hK : noClash K = true) (st : St)
     (hst : MapsOK K st.store) (ops : List Op)
-    (hops : ∀ op ∈ ops, (∀ k ∈ opKeys op, k ∈ K) ∧ opBoolLookup op = false) :
+    (hops : ∀ op ∈ ops, (∀ k ∈ opKeys op, k ∈ K) ∧ opBoolLookup op = false ∧ opIsDeq op = false) :
     run (pyDialect false) st ops = run Spec.specDialect st ops :=
   run_refine (Agree_of_noClash hK) st hst ops hops
 
 /-- …in particular from the empty state, with `K` = the literal keys of the history. -/
 theorem run_refines_spec_from_empty_partial (ops : List Op)
-    (hK : noClash (ops.flatMap opKeys) = true) (hb : ∀ op ∈ ops, opBoolLookup op = false) :
+    (hK : noClash (ops.flatMap opKeys) = true)
+    (hb : ∀ op ∈ ops, opBoolLookup op = false ∧ opIsDeq op = false) :
     run (pyDialect false) ⟨[], []⟩ ops = run Spec.specDialect ⟨[], []⟩ ops :=
   run_refine (Agree_of_noClash hK) ⟨[], []⟩ (fun a es h => by simp at h) ops
     (fun op hop => ⟨fun k hk => List.mem_flatMap.2 ⟨op, hop, hk⟩, hb op hop⟩)
@@ -337,7 +388,7 @@ theorem run_refines_spec_from_empty_partial (ops : List Op)
 example :
     let ops := [Op.seq [.lit (.int 7)], .mCtor [(.int 1, 0), (.str [97], 0), (.dnan, 0)],
       .mPut 1 (.dec 1) 0, .seq [.var 1, .var 2], .mMerge 3 (some .combine), .lookup 4 (some [.dnan, .int 1])]
-    noClash (ops.flatMap opKeys) = true ∧ (∀ op ∈ ops, opBoolLookup op = false) ∧
+    noClash (ops.flatMap opKeys) = true ∧ (∀ op ∈ ops, opBoolLookup op = false ∧ opIsDeq op = false) ∧
     (run (pyDialect false) ⟨[], []⟩ ops).env.getLast? =
       some [.atom (.int 7), .atom (.int 7), .atom (.int 7), .atom (.int 7)] := by decide
 
@@ -348,5 +399,34 @@ theorem lookup_bool_index_differs :
     (run (pyDialect false) ⟨[], []⟩ ops).env[2]? = some [.atom (.int 7)] ∧
     (step Spec.specDialect (run Spec.specDialect ⟨[], []⟩ (ops.take 2)) (.lookup 1 (some [.bool true]))).2
       = some .XPTY0004 := by decide
+
+/-! ## deep-equal on atomic values -/
+
+/-- the atomic comparison of `deep_equal` is reflexive (NaN included) and symmetric -/
+theorem atom_deep_equal_refl_symm :
+    (∀ a : Key, pyAtomEq a a = true) ∧ (∀ a b : Key, pyAtomEq a b = pyAtomEq b a) :=
+  ⟨pyAtomEq_refl, pyAtomEq_symm⟩
+
+/-- PARTIAL (F15k and an exactness caveat).  Full statement: *the atomic comparison of the code is
+F&O's "`eq` or both NaN"*.  It holds outside `atomClash`, and `atomClash a b` is possible only for
+an integer against a double (Python compares exactly where F&O first converts the integer to
+xs:double — observable beyond 2^53 only) or for two opaque values (hexBinary against base64Binary). -/
+theorem atom_deep_equal_partial (a b : Key) :
+    (atomClash a b = false → pyAtomEq a b = Spec.atomDeepEqual a b) ∧
+    (atomClash a b = true → atomClashShape a b = true) :=
+  ⟨pyAtomEq_eq_spec_of_not_clash, atomClash_shape a b⟩
+
+/-- kernel-checked witnesses: 2^53+1 against the double 2^53; hexBinary against base64Binary;
+and agreement on the usual suspects (0.1 against 0.1e0 is equal for both: the decimal is converted
+to double; `true()` against 1 is unequal for both) -/
+theorem atom_deep_equal_witnesses :
+    pyAtomEq (.int 9007199254740993) (.dbl 9007199254740992 false) = false ∧
+    Spec.atomDeepEqual (.int 9007199254740993) (.dbl 9007199254740992 false) = true ∧
+    pyAtomEq (.opq 3 [0, 255]) (.opq 4 [0, 255]) = true ∧
+    Spec.atomDeepEqual (.opq 3 [0, 255]) (.opq 4 [0, 255]) = false ∧
+    pyAtomEq (.dec (mkRat 1 10)) (.dbl (mkRat 3602879701896397 36028797018963968) false) = true ∧
+    Spec.atomDeepEqual (.dec (mkRat 1 10)) (.dbl (mkRat 3602879701896397 36028797018963968) false) = true ∧
+    pyAtomEq (.bool true) (.int 1) = false ∧ Spec.atomDeepEqual (.bool true) (.int 1) = false := by
+  decide
 
 end EPV.C15
